@@ -1,4 +1,6 @@
+mod broker;
 mod common;
+mod cost;
 mod jura;
 mod server;
 mod uist;
@@ -20,6 +22,8 @@ fn main() {
             let cases: usize = a[4].parse().expect("cases");
             match c {
                 "uist" => uist::gen(seed, cases, &a[5], &a[6]),
+                "broker" => broker::gen(seed, cases, &a[5], &a[6]),
+                "cost" => cost::gen(seed, cases, &a[5], &a[6]),
                 "jura" => jura::gen(seed, cases, &a[5], &a[6]),
                 "server-uist" => server::gen(false, seed, cases, &a[5], &a[6]),
                 "server-jura" => server::gen(true, seed, cases, &a[5], &a[6]),
@@ -28,6 +32,8 @@ fn main() {
         }
         (c, "run") if a.len() == 6 => match c {
             "uist" => uist::run(&a[3], &a[4], &a[5]),
+            "broker" => broker::run(&a[3], &a[4], &a[5]),
+            "cost" => cost::run(&a[3], &a[4], &a[5]),
             "jura" => jura::run(&a[3], &a[4], &a[5]),
             "server-uist" => server::run::<rotala::http::uist::AppState>(&a[3], &a[4], &a[5]),
             "server-jura" => server::run::<rotala::http::jura::AppState>(&a[3], &a[4], &a[5]),
